@@ -157,48 +157,69 @@ def run(rep, tier):
     for fn, kind in (("EvalBonded", "bonded"), ("EvalNonbonded", "pair"), ("EvalNonbonded_Threebody", "triple")):
         g = F.one(FM + fn)
         rep.analysed(g)
-        calls = [n for n in g.walk() if n.get("k") == "mcall" and (n.get("callee") or "").endswith("CubicSpline::AddToFitMatrix")]
+        fo_g = Fold(g, inline="internal", record_calls=r"CubicSpline::AddToFitMatrix$").run()
+        calls = [e for e in fo_g.events if e["kind"] == "call"]
         rep.floor("R6.4", len(calls), {"bonded": 3, "pair": 6, "triple": 9}[kind], "AddToFitMatrix calls in " + fn)
-        fold = Fold(g)
         per_atom = {}
-        for c in calls:
-            a = c["args"]
-            row = fold.ev(a[2], {})
-            scales = [nows(show(x)) for x in a[4:]]
-            comps = {re.search(r"\.([xyz])\(\)$", s_).group(1) if re.search(r"\.([xyz])\(\)$", s_) else "?" for s_ in scales}
-            key = "%s|row|%s|%s" % (fn, nows(show(a[2]))[-22:], ",".join(scales))
-            if len(comps) != 1 or "?" in comps:
-                rep.broken("R6.4", "%s: scale arguments %s are not vector components" % (fn, scales))
+        absc = set()
+        for e in calls:
+            a = e["args"]
+            if len(a) < 5 or isinstance(a[2], (tuple, sp.Matrix)) or isinstance(a[4], (tuple, sp.Matrix)):
+                rep.broken("R6.4", "%s: AddToFitMatrix arguments do not fold to scalars" % fn)
+                continue
+            row, scale = a[2], a[4]
+            # which component: the scale argument is written as +-<vector>.x() / .y() / .z() at the call (in the kernel or in its helper)
+            txt = nows(show(e["node"]["args"][4]))
+            mc = re.search(r"\.([xyz])\(\)\)?$", txt)
+            comps = {mc.group(1)} if mc else set()
+            key = "%s|row|%s|%s#%d" % (fn, str(sp.expand(row))[-40:], txt[-24:], len(per_atom) + total_rows)
+            if len(comps) != 1:
+                rep.broken("R6.4", "%s: the scale argument %s is not one component of a vector" % (fn, str(scale)[:80]))
                 continue
             ci = "xyz".index(comps.pop())
             rest = sp.expand(row - (off + 3 * nb * fc + ci * nb))
-            ok = rest.is_Symbol and str(rest) in ("ii", "iatom", "jatom", "katom")
+            ok = not rest.has(off) and not rest.has(nb) and not rest.has(fc) and re.search(r"getId\(|getBeadId\(", str(rest)) is not None and str(a[0]) == "A_"
             total_rows += 1
-            rep.check(ok and nows(show(a[0])) == "A_", "R6.4", key, "row = off + 3 nbeads frame + %d nbeads + %s for component %s" % (ci, rest, "xyz"[ci]),
+            rep.check(ok, "R6.4", key, "row = off + 3 nbeads frame + %d nbeads + %s for component %s" % (ci, rest, "xyz"[ci]),
                       "%s: the %s component (%s) is added to row %s; required least_sq_offset_ + 3*nbeads_*frame_counter_ + %d*nbeads_ + <atom> "
-                      "(rows of A_ and b_ no longer describe the same force component)" % (fn, "xyz"[ci], scales, nows(show(a[2])), ci), g.loc(c), sample=(ci == 1 and kind == "pair"))
+                      "(rows of A_ and b_ no longer describe the same force component)" % (fn, "xyz"[ci], str(scale)[:60], str(sp.expand(row))[:120], ci), g.loc(e["node"]), sample=(ci == 1 and kind == "pair"))
             if ok:
-                per_atom.setdefault(str(rest), []).append((ci, scales))
+                per_atom.setdefault(str(rest), []).append((ci, scale))
+            absc.add(str(a[1]))
         # signs and gradient sources
         if kind == "pair":
-            gi = local_init(g, "gradient")
-            okg = gi is not None and nows(show(gi)).endswith("pair->r()") and any(n.get("k") == "mcall" and (n.get("callee") or "").endswith("::normalize") and show(n["obj"]) == "gradient" for n in g.walk())
-            signs = {at: {s_[0].startswith("-") for _, s_ in lst} for at, lst in per_atom.items()}
-            ok = okg and signs.get("iatom") == {False} and signs.get("jatom") == {True}
-            idefs = (nows(show(local_init(g, "iatom") or {})), nows(show(local_init(g, "jatom") or {})))
-            ok = ok and idefs == ("pair->first()->getId()", "pair->second()->getId()")
+            pn = [str(x) for x in absc]
+            pr = re.match(r"^dist\((.*)\)$", pn[0]) if len(pn) == 1 else None
+            ok = pr is not None
+            signs = {}
+            if ok:
+                pv = pr.group(1)
+                R = sp.Matrix([S("r(%s).%s" % (pv, c_)) for c_ in "xyz"])
+                nrm = sp.sqrt(sum(x * x for x in R))
+                for at, lst in per_atom.items():
+                    for ci, sc_ in lst:
+                        q = sp.simplify(sc_ * nrm / R[ci])
+                        signs.setdefault(at, set()).add(str(q))
+                first = [at for at in signs if "first(%s)" % pv in at]
+                second = [at for at in signs if "second(%s)" % pv in at]
+                ok = len(first) == 1 and len(second) == 1 and signs[first[0]] == {"1"} and signs[second[0]] == {"-1"} and len(per_atom[first[0]]) == 3 and len(per_atom[second[0]]) == 3
             rep.check(ok, "R6.4", fn + "|newton3", "+g on the first bead, -g on the second (g = r/|r| of the pair)",
-                      "%s: pair force signs are %s with atoms %s (required + for first(), - for second(), unit vector of pair->r())" % (fn, signs, idefs), g.loc(), sample=True)
-            vv = local_init(g, "var")
-            rep.check(vv is not None and nows(show(vv)) == "pair->dist()", "R6.4", fn + "|abscissa", "spline argument = pair distance", "spline argument is %s" % show(vv), g.loc())
+                      "%s: pair force coefficients relative to r/|r| are %s (required +1 for first(), -1 for second(), all three components)" % (fn, signs), g.loc(), sample=True)
+            rep.check(pr is not None, "R6.4", fn + "|abscissa", "spline argument = pair distance", "spline argument is %s" % sorted(absc), g.loc())
         if kind == "bonded":
-            gi = local_init(g, "gradient")
-            ii = local_init(g, "ii")
-            vv = local_init(g, "var")
-            ok = gi is not None and nows(show(gi)).endswith("inter->Grad(*conf,loop)") and ii is not None and nows(show(ii)) == "inter->getBeadId(loop)" \
-                and vv is not None and nows(show(vv)) == "inter->EvaluateVar(*conf)" and all(s_[0].startswith("-") for lst in per_atom.values() for _, s_ in lst)
+            ok = len(absc) == 1 and re.match(r"^EvaluateVar\(", list(absc)[0]) is not None and len(per_atom) == 1
+            if ok:
+                at, lst = list(per_atom.items())[0]
+                mloop = re.search(r"getBeadId\((.*), (.*)\)$", at)
+                ok = mloop is not None and len(lst) == 3
+                if ok:
+                    inter_, loop_ = mloop.groups()
+                    for ci, sc_ in lst:
+                        gsyms = [x for x in sc_.free_symbols if nows(str(x)).startswith("Grad(%s" % nows(inter_)) and nows(str(x)).endswith(",%s).%s" % (nows(loop_), "xyz"[ci]))]
+                        ok = ok and len(gsyms) == 1 and sp.simplify(sc_ + gsyms[0]) == 0
+                    ok = ok and list(absc)[0].startswith("EvaluateVar(%s" % inter_)
             rep.check(ok, "R6.4", fn + "|gradient", "rows of bead 'loop' use -Grad(conf, loop) and the interaction's own value",
-                      "%s: gradient %s, bead id %s, abscissa %s" % (fn, show(gi), show(ii), show(vv)), g.loc(), sample=True)
+                      "%s: scales %s, abscissa %s" % (fn, {k_: [str(x[1])[:50] for x in v_] for k_, v_ in per_atom.items()}, sorted(absc)), g.loc(), sample=True)
     ec = F.one(FM + "EvalConfiguration")
     rep.analysed(ec)
     foe = Fold(ec, opaque_types=r"Eigen::Matrix<double, -1", record_calls=r"::setZero$|FmatchAssignSmoothCondsToMatrix$|FmatchAccumulateData$|WriteOutFiles$").run()
